@@ -863,6 +863,12 @@ def run_reader(path, skip, otext_listing, col, ctx, tier, do_addressing, cat):
                     col.samples.append({'case': dtag, 'table': name, 'index': ti, 'line': r['line'][:100],
                                         'tokens': [c[2] for c in r['cells']][:4], 'reader': [float(x) for x in M[len(ot.rows) // 2][:4]] if len(M) > len(ot.rows) // 2 else None})
         return lst
+    except Exception as e:
+        import traceback
+        tb = traceback.extract_tb(sys.exc_info()[2])
+        where = ', '.join('%s:%d' % (os.path.basename(fr.filename), fr.lineno) for fr in tb[-3:])
+        col.add('%s-exception %s contracts' % (cat, tag), 'evaluating the contracts raises %s: %s (%s)' % (type(e).__name__, str(e)[:200], where), base_inp)
+        return None
     finally:
         try:
             lst.close()
@@ -1029,9 +1035,11 @@ def main():
             for u in res.get('unclean', []):
                 if len(notes) < 10:
                     notes.append(rel(job['path']) + ': columns not separable by right edges in block %s table %s (sequential cell numbering used)' % tuple(u))
-        if harness_errors:
-            sys.stderr.write('HARNESS ERROR in %d worker(s), first: %s\n%s\n' % (len(harness_errors), harness_errors[0][0], harness_errors[0][1]))
-            sys.exit(2)
+        for tag, err in harness_errors:
+            # a worker that dies (segfault, recursion, out of memory in the code under test ...) is a failure, not a harness crash
+            sys.stderr.write('worker died: %s\n%s\n' % (tag, err))
+            failures['worker-died ' + tag] = {'key': 'worker-died ' + tag, 'what': 'the subprocess died without a result: ' + (err or '')[-300:],
+                                              'input': {'jobs': tag}, 'count': 1}
     finally:
         shutil.rmtree(scratch, ignore_errors=True)
     flist = []
